@@ -63,15 +63,25 @@ def build_items(tier, seed, wd):
             files = sorted(set(f for r in rules for f in inputs.get(r, [])))
         for p in files:
             add(p, ["--fix", "-c", cfgfile], "sweep%d" % k)
+    # prefix / suffix exceptions of the case rules with a broad list of affixes, on files whose identifiers carry them
+    for cname in (["upper"] if tier == "quick" else ["upper", "lower"]):
+        cfg, rules = configs.affix_config(table, cname)
+        if rules:
+            cfgfile = configs.write_config(cfg, os.path.join(wd, "affix_%s.json" % cname))
+            sweeps["affix_" + cname] = cfg["rule"]
+            cand = [p for p in paths if p.endswith("_test_input.vhd") or "/styles/code_examples/" in p]
+            files = corpus.stratified_sample(cand, 160 if tier == "quick" else len(cand), seed + 5, always=("/styles/code_examples/",))
+            for p in files:
+                add(p, ["--fix", "-c", cfgfile], "affix_" + cname)
     # meaning-preserving re-layouts (harness/variants.py): comments at line ends / on own lines, line breaks, case
     import variants
 
     base_inputs = [p for p in paths if p.endswith("_test_input.vhd") or "/styles/code_examples/" in p or "/rule_doc/" in p]
     # comments at every line end / between all lines, case, spacing.  (Line-break and join recipes are used for C05 -
     # classification - where the property names them; see DESIGN.md section 5 for why the fix family leaves them out.)
-    recipes = ["eol1", "own1", "upper"] if tier == "quick" else ["eol1", "eol3a", "eol3b", "own1", "own3", "upper", "lower", "flip", "widen", "narrow"]  # not: break*, join*, breakcmt*
+    recipes = ["eol1", "eolt1", "own1", "upper"] if tier == "quick" else ["eol1", "eolt1", "eol3a", "eol3b", "own1", "own3", "upper", "lower", "flip", "widen", "narrow"]  # not: break*, join*, breakcmt*
     for ri, rname in enumerate(recipes):
-        chosen = corpus.stratified_sample(base_inputs, 110 if tier == "quick" else len(base_inputs), seed + 17 * (ri + 1), always=("/styles/code_examples/",))
+        chosen = corpus.stratified_sample(base_inputs, 100 if tier == "quick" else len(base_inputs), seed + 17 * (ri + 1), always=("/styles/code_examples/",))
         for p in chosen:
             try:
                 with open(p, encoding="utf-8", newline="") as f:
